@@ -560,6 +560,9 @@ public:
         copy_data(mat, uplo, shift);
 
         const RealScalar alpha = (1.0 + std::sqrt(17.0)) / 8.0;
+        // The status is only downgraded below, so it must not be inherited
+        // from the constructor (1x1 matrices) or from a previous compute()
+        m_info = CompInfo::Successful;
         Index k = 0;
         for (k = 0; k < m_n - 1; k++)
         {
